@@ -174,6 +174,12 @@ class Resources:
         pattern = re.compile(r"^(\d+:)?(\d{2}:)?\d{2}:\d{2}$")
         return bool(pattern.match(time))
 
+    @staticmethod
+    def _wall_time_to_seconds(time: str) -> int:
+        # "[D:][H:]MM:SS"; fields from the right are seconds, minutes, hours, days
+        multipliers = (1, 60, 3600, 86400)
+        return sum(int(x) * m for x, m in zip(reversed(time.split(":")), multipliers))
+
     def to_slurm_options(self) -> str:
         """Convert the Resources instance to SLURM options.
 
@@ -278,7 +284,7 @@ class Resources:
                 max_data["time"] = (
                     resources.time
                     if max_data["time"] is None
-                    else max(max_data["time"], resources.time)
+                    else max(max_data["time"], resources.time, key=Resources._wall_time_to_seconds)
                 )
             if resources.partition is not None:
                 max_data["partition"] = resources.partition
